@@ -88,3 +88,189 @@ def _(c):
     c.trusted = True
     c.model = hash_file_model
     c.note('body (streaming loop over hashlib objects) is checked by the bounded stand-in with adversarial read schedules')
+
+
+# --------------------------------------------------------------------------
+# hash_file: the streaming invariant, for every read schedule and every hint
+
+from vp.contract import REGISTRY
+from vp.values import _other
+import copy as _copy
+
+SB = z3.StringSort()
+hasher_ref = z3.Function('hasher_ref', SB, z3.IntSort())        # canonical object of a hash name (A: one object per name,
+hasher_name = z3.Function('hasher_name', z3.IntSort(), SB)     #    a second request for the same name starts afresh)
+rd_data = z3.Function('reader_data', z3.IntSort(), SB)          # whole content behind a reader object
+OptRef = opt_sort(z3.IntSort())
+SeqB_ = z3.SeqSort(SB)
+
+
+def hasher_attr(it, obj, name, node):
+    ctx = it.ctx
+    if name == 'update':
+        def update(itp, a, k, n):
+            blk = itp.ctx.force(a[0])
+            cur = itp.ctx.read_field(obj.t, '_fed')
+            itp.ctx.write_field(obj.t, '_fed', VBytes(z3.Concat(cur.t, blk.t)))
+            return NONE
+        f = VFunc('hash.update', update)
+        f.bind = False
+        return f
+    if name == 'hexdigest':
+        def hexdigest(itp, a, k, n):
+            fed = itp.ctx.read_field(obj.t, '_fed').t
+            nm = hasher_name(obj.t)
+            return VOpaque(z3.If(nm == z3.StringVal('__size__'), U.vint(z3.Length(fed)), U.vstr(digest(nm, fed))))
+        f = VFunc('hash.hexdigest', hexdigest)
+        f.bind = False
+        return f
+    return None
+
+
+def reader_attr(it, obj, name, node):
+    """binary file object: A-fs read contracts over the ghost content reader_data(f) and position _pos"""
+    def pos(itp):
+        return itp.ctx.read_field(obj.t, '_pos').t
+    data = rd_data(obj.t)
+    if name == 'read':
+        def read(itp, a, k, n):
+            if itp.ctx.choose(2, 'read-outcome') == 1:
+                raise PyRaise(VExc('OSError', [], {'errno': VInt(itp.ctx.fresh_const('errno', z3.IntSort()))}, line=n.lineno))
+            p = pos(itp)
+            itp.ctx.write_field(obj.t, '_pos', VInt(z3.Length(data)))
+            return VBytes(z3.SubString(data, p, z3.Length(data) - p))      # all the remaining bytes
+        f = VFunc('reader.read', read)
+        f.bind = False
+        return f
+    if name == 'read1':
+        def read1(itp, a, k, n):
+            if itp.ctx.choose(2, 'read1-outcome') == 1:
+                raise PyRaise(VExc('OSError', [], {'errno': VInt(itp.ctx.fresh_const('errno', z3.IntSort()))}, line=n.lineno))
+            size = itp._num(itp.ctx.force(a[0]))
+            p = pos(itp)
+            ln = itp.ctx.fresh_const('chunk', z3.IntSort())
+            # 1..size bytes, or b'' exactly at end of file -- any short read schedule
+            itp.ctx.assume(z3.And(ln >= 0, ln <= size, ln <= z3.Length(data) - p, (ln == 0) == (p == z3.Length(data))))
+            itp.ctx.write_field(obj.t, '_pos', VInt(p + ln))
+            return VBytes(z3.SubString(data, p, ln))
+        f = VFunc('reader.read1', read1)
+        f.bind = False
+        return f
+    return None
+
+
+def ghbn_model(it, bound, node):
+    """get_hash_by_name at its call site in hash_file: its verified contract, with the hash object
+    identified by its name"""
+    ctx = it.ctx
+    nm = ctx.force(bound['name'])
+    ok = z3.Or(nm.t == z3.StringVal('__size__'), available(nm.t))
+    if not ctx.branch(ok, 'hash-available'):
+        raise PyRaise(VExc('UnsupportedHash', [], {}, line=getattr(node, 'lineno', None)))
+    r = VRef(hasher_ref(nm.t), ('_Hasher',))
+    ctx.assume(hasher_name(r.t) == nm.t)
+    ctx.assume(r.t >= 0)
+    ctx.known_class[simp(r.t).get_id()] = '_Hasher'
+    ctx.write_field(r.t, '_fed', VBytes(b''))
+    return r
+
+
+def isval(names, r):
+    return z3.And(z3.Contains(names, z3.Unit(hasher_name(r))), hasher_ref(hasher_name(r)) == r)
+
+
+def fed_map(s, names, inner, fed0):
+    """heap array of _fed: hashers of `names` hold inner(r), everything else is untouched"""
+    r = z3.Int('r')
+    return z3.Lambda([r], z3.If(isval(names, r), inner(r), z3.Select(fed0, r)))
+
+
+@contract('gemato/hash.py', 'hash_file.body', props=['C17'])
+def _(c):
+    c.trusted = True      # placeholder so that the key exists; the real contract follows
+
+
+def _hash_file_contract():
+    c = REGISTRY[('gemato/hash.py', 'hash_file')]
+    del REGISTRY[('gemato/hash.py', 'hash_file.body')]
+    c.trusted = False
+    c.params(f=Obj('_Reader'), hash_names=SeqT(Str), _apparent_size=Int)
+    c.param_types.pop('f', None)
+    c.param_types = type(c.param_types)([('f', Obj('_Reader')), ('hash_names', SeqT(Str)), ('_apparent_size', Int)])
+    c.returns(DictT(Str, Any))
+    c.only_raises('OSError', 'UnsupportedHash')
+    c.notes[:] = ['body verified for every read schedule (read1 returns any 1..n bytes, b"" only at EOF), every size hint and '
+                  'every content; hash objects are abstracted by the bytes fed to them (A-hashlib: update is concatenation)']
+
+    def setup(it, fr, bound):
+        it.engine.pseudo_classes['_Hasher'] = hasher_attr
+        it.engine.pseudo_classes['_Reader'] = reader_attr
+        c2 = _copy.copy(REGISTRY[('gemato/hash.py', 'get_hash_by_name')])
+        c2.model = ghbn_model
+        it.engine.registry = dict(it.engine.registry)
+        it.engine.registry[('gemato/hash.py', 'get_hash_by_name')] = c2
+        f = bound['f']
+        it.ctx.write_field(f.t, '_pos', VInt(0))
+        it.ctx.known_class[simp(f.t).get_id()] = '_Reader'
+
+        def dict_hook(itp, cell, other, node):
+            return None
+        it.entry_args['fed0'] = VOpaque(z3.BoolVal(True))
+    c.setup = setup
+
+    names = lambda s: s.hash_names
+    data = lambda s: rd_data(s.f.ref)
+    FED0 = lambda s: z3.Const('heap0!_fed', z3.ArraySort(z3.IntSort(), SB))
+
+    def dmap(s, upto):
+        k = z3.Const('k', SB)
+        return z3.Lambda([k], z3.If(z3.Contains(z3.SubSeq(names(s), 0, upto), z3.Unit(k)), OptRef.some(hasher_ref(k)), OptRef.none))
+
+    # loop 1: for h in hash_names
+    c.loop(1, header='for h in hash_names', vars={'hashes': DictT(Str, Obj('_Hasher'))}, havoc_fields=['_fed'],
+           inv=[('one-fresh-hasher-per-name-so-far',
+                 lambda s: z3.And(_arr(s.cur.hashes) == dmap(s, s.i),
+                                  s._heap['_fed'] == fed_map(s, z3.SubSeq(names(s), 0, s.i), lambda r: z3.StringVal(''), FED0(s))))])
+    # loop 2: slurp branch, for h in hashes.values()
+    c.loop(2, header='for h in hashes.values()', havoc_fields=['_fed'],
+           inv=[('fed-block-to-the-first-j-hashers',
+                 lambda s: s._heap['_fed'] == fed_map(
+                     s, names(s), lambda r: z3.If(z3.Contains(z3.SubSeq(s.seq, 0, s.i), z3.Unit(hasher_name(r))), s.cur.block, z3.StringVal('')),
+                     FED0(s)))],
+           assume_each=lambda s: z3.Not(z3.Contains(z3.SubSeq(s.seq, 0, s.i), z3.Unit(s.seq[s.i]))))
+    # loop 3: chunk branch, for block in iter(lambda: f.read1(N), b'')
+    c.loop(3, header="for block in iter(lambda: f.read1(HASH_BUFFER_SIZE), b'')", vars={'h': None}, havoc_fields=['_fed', '_pos'],
+           inv=[('every-hasher-holds-the-bytes-read-so-far',
+                 lambda s: z3.And(s.f._pos >= 0, s.f._pos <= z3.Length(data(s)),
+                                  s._heap['_fed'] == fed_map(s, names(s), lambda r: z3.SubString(data(s), 0, s.f._pos), FED0(s))))])
+    # loop 4: inner loop of the chunk branch
+    c.loop(4, header='for h in hashes.values()', havoc_fields=['_fed'],
+           inv=[('fed-block-to-the-first-j-hashers',
+                 lambda s: z3.And(
+                     s.cur.block == z3.SubString(data(s), s.f._pos - z3.Length(s.cur.block), z3.Length(s.cur.block)),
+                     s.f._pos - z3.Length(s.cur.block) >= 0, s.f._pos <= z3.Length(data(s)),
+                     s._heap['_fed'] == fed_map(
+                         s, names(s),
+                         lambda r: z3.If(z3.Contains(z3.SubSeq(s.seq, 0, s.i), z3.Unit(hasher_name(r))),
+                                         z3.SubString(data(s), 0, s.f._pos),
+                                         z3.SubString(data(s), 0, s.f._pos - z3.Length(s.cur.block))),
+                         FED0(s))))],
+           assume_each=lambda s: z3.Not(z3.Contains(z3.SubSeq(s.seq, 0, s.i), z3.Unit(s.seq[s.i]))))
+
+    def result_is_whole_content(s):
+        k = z3.Const('k', SB)
+        d = data(s)
+        want = z3.Lambda([k], z3.If(z3.Contains(names(s), z3.Unit(k)),
+                                    z3.If(k == z3.StringVal('__size__'), OptU.some(U.vint(z3.Length(d))),
+                                          OptU.some(U.vstr(digest(k, d)))), OptU.none))
+        return s.result == want
+    c.ensures('digests-and-size-of-the-whole-content-for-exactly-the-requested-names', result_is_whole_content, internal=True)
+
+
+def _arr(x):
+    if x is None or isinstance(x, (list, dict)):
+        return z3.K(SB, OptRef.none)
+    return x
+
+
+_hash_file_contract()
